@@ -495,4 +495,66 @@ def DynDim.toTStride (d : DynDim) : TStride := ⟨d.1, none⟩ :: d.2.map SStrid
 /-- the bounds such a dimension resolves to at runtime extent `n` -/
 def DynDim.boundsFor (d : DynDim) (n : Nat) : List Nat := n / prodB d.2 :: d.2.map (·.bound)
 
+/-! ## The loop-nest view (DMA loop nests, allocation sizes) -/
+
+/-- the addresses visited by a loop nest over (bound, step) pairs, outermost loop first, innermost fastest -/
+def nestValues : List (Nat × Nat) → List Nat
+  | [] => [0]
+  | (b, st) :: r => (List.range b).flatMap fun i => (nestValues r).map (st * i + ·)
+
+/-- the loop nest described by per-tile bounds and steps (dimension-major, outermost tile first) -/
+def nestOf (bounds steps : List (List Nat)) : List (Nat × Nat) := bounds.flatten.zip steps.flatten
+
+/-- address of a digit vector under per-tile steps -/
+def dotDigits : List Nat → List Nat → Nat
+  | st :: sts, d :: ds => d * st + dotDigits sts ds
+  | _, _ => 0
+
+/-- digit vectors of a nest: one digit per tile, below the tile's bound -/
+def InRange : List Nat → List Nat → Prop
+  | [], [] => True
+  | b :: bs, d :: ds => d < b ∧ InRange bs ds
+  | _, _ => False
+
+/-! ## Vocabulary for the injectivity of a resolved dynamic layout (lists of (stride, extent), read right to
+left = innermost tile of the last dimension first, exactly as `get_step_ops` assigns the steps) -/
+
+/-- contribution of the static tiles to the address of a digit vector -/
+def statSum (el : Nat) : List (Stride × Nat) → List Nat → Nat
+  | (s, _) :: r, d :: ds => (match s.step with | some st => d * (st * el) | none => 0) + statSum el r ds
+  | _, _ => 0
+
+/-- the largest address the static tiles reach -/
+def statSpan (el : Nat) : List (Stride × Nat) → Nat
+  | [] => 0
+  | (s, b) :: r => (match s.step with | some st => (b - 1) * (st * el) | none => 0) + statSpan el r
+
+/-- the digits of the static tiles -/
+def statDigits : List (Stride × Nat) → List Nat → List Nat
+  | (s, _) :: r, d :: ds => (match s.step with | some _ => [d] | none => []) ++ statDigits r ds
+  | _, _ => []
+
+/-- mixed-radix value of the digits of the dynamic tiles (first visited = least significant) -/
+def dynVal : List (Stride × Nat) → List Nat → Nat
+  | (s, b) :: r, d :: ds => match s.step with
+    | some _ => dynVal r ds
+    | none => d + b * dynVal r ds
+  | _, _ => 0
+
+/-! ## `get_step_ops` with fix FC10a (finding C10-N1) -/
+
+/-- `get_step_ops` with fix FC10a: when no stride has a (truthy) static step the chain is seeded with the
+    element size ("default to the most right stride (row-major-like)") instead of `extent × 0`; otherwise
+    exactly `stepsAt`. (`bound_ops[max_key]` is no longer read in that case, so a layout without strides does
+    not raise here.) -/
+def stepsAtN1 (l : Layout) (bounds : List (List Nat)) (el : Nat) : Except Err (List (List Nat)) :=
+  let flat := l.strides
+  let fb := bounds.flatten
+  if l.ts = [] then .error .indexError
+  else if flat.length ≠ fb.length then .error .indexError
+  else
+    let (p, v) := maxStep flat 0 (flat.length - 1) 0
+    let dyn0 := if v = 0 then el else fb.getD p 0 * (v * el)
+    .ok (regroup l.ts (stepsRev el (flat.zip fb).reverse dyn0).reverse)
+
 end SnaxVerif.Tsl
